@@ -239,10 +239,11 @@ def _eval_jac(case):
     ts = [c[: G.DIM[k]] for k, c in zip(kinds, case["poses"])]
     tsc = 1.0 + sum(max(abs(x) for x in t) for t in ts)
     absmax = 1.0 + max(max(abs(x) for x in c[: G.DIM[k]]) for k, c in zip(kinds, poses))
-    # distance-like errors are not differentiable where the distance vanishes
+    # distance-like errors are not differentiable where the distance vanishes (and the 5-point oracle, stencil width 4e-3, cannot
+    # resolve the kink when the distance is comparable to it): configurations with a distance below 0.05 are skipped and counted
     if name in ("distance", "range", "spacing"):
         d0 = _min_distance(name, e)
-        if d0 < 1e-3:
+        if d0 < 0.05:
             return [], {"classes": classes, "ratio": 0.0, "ops": 1, "nontrivial": False}
     if name in ("relpose", "prior") and kinds[0] == "SE2" and abs(abs(e0[2]) - math.pi) < 0.02:
         # the SE(2) angular error wraps here: the error function itself is discontinuous (not a smooth program at this point)
@@ -299,7 +300,7 @@ def _eval_jac(case):
         for a in range(G.DIM[kinds[0]]):
             c0[a] += (0.37, -0.21, 0.11)[a]
         v0.pose = I.mk_pose(kinds[0], c0)
-        if not (name in ("distance", "range", "spacing") and _min_distance(name, e) < 1e-3):
+        if not (name in ("distance", "range", "spacing") and _min_distance(name, e) < 0.05):
             e1 = np.asarray(e.calc_error(), dtype=float).ravel()
             if not (name in ("relpose", "prior") and kinds[0] == "SE2" and abs(abs(e1[2]) - math.pi) < 0.02):
                 jacs2 = I.BaseEdge.calc_jacobians(e)
